@@ -436,7 +436,16 @@ def check(ctx, fx):
         for b in f["blocks"]:
             for i, s in enumerate(b["stmts"]):
                 for n in X.stmt_nodes(s, local=True):
-                    if n.get("k") == "call" and n.get("name") == "update_base_port":
+                    store = n.get("k") == "call" and n.get("name") == "update_base_port"
+                    # `port = parsed_port;` (the ternary written as if/else): assignment / operator= on the member `port`
+                    if n.get("k") == "assign" and X.show(X.strip(n["lhs"])).replace("this->", "") == "port" and "parsed_port" in X.show(n["rhs"]):
+                        store = True
+                    if n.get("k") == "call" and n.get("name") == "operator=" and n.get("recv") is not None and \
+                            X.show(X.strip(n["recv"])).replace("this->", "") == "port" and "parsed_port" in X.show(n):
+                        store = True
+                    guarded_value = any(isinstance(x, dict) and x.get("k") == "cond" and "is_port_valid" in X.show(x["c"]) and
+                                        "parsed_port" in X.show(x["t"]) and "parsed_port" not in X.show(x["f"]) for x in X.walk(n))
+                    if store and not guarded_value:
                         facts = mfp.facts_before(b["id"], i) or frozenset()
                         ok = any(x.startswith("eng:") and x.endswith(":is_port_valid") for x in facts)
         ctx.check("I4", "%s::parse_port stores the port only if is_port_valid" % cls, ok, "guarded",
